@@ -97,14 +97,20 @@ def lock_release(ex, args, kw):
 BLOCK_KEY = {'a': 'block[0]', 'x': 'block[1]'}
 
 _SE = ['start_index_wf', 'stop_index_wf']
+_CLR0 = ['block_disjoint_from_free', 'prev_extent_clear_of_free', 'next_extent_clear_of_free']
+_CLA0 = ['block_disjoint_from_allocated', 'prev_extent_clear_of_allocated', 'next_extent_clear_of_allocated']
+_CLR = ['merged_extent_clear_of_free']
+_CLA = ['merged_extent_clear_of_allocated']
 FREE_USES = {
+    'merged_extent_clear_of_free': _SE + _CLR0 + ['no_two_free_blocks_touch'],
+    'merged_extent_clear_of_allocated': _CLA0,
     'allocated_blocks_wf': ['allocated_blocks_wf'],
     'allocated_blocks_disjoint': ['allocated_blocks_disjoint'],
-    'allocated_disjoint_from_free': _SE + ['allocated_disjoint_from_free', 'block_disjoint_from_allocated'],
+    'allocated_disjoint_from_free': _SE + ['allocated_disjoint_from_free'] + _CLA,
     'start_index_wf': _SE + ['no_two_free_blocks_touch'],
     'stop_index_wf': _SE + ['no_two_free_blocks_touch'],
-    'no_two_free_blocks_touch': _SE + ['no_two_free_blocks_touch', 'block_disjoint_from_free'],
-    'free_blocks_disjoint': _SE + ['free_blocks_disjoint', 'block_disjoint_from_free'],
+    'no_two_free_blocks_touch': _SE + ['no_two_free_blocks_touch'] + _CLR,
+    'free_blocks_disjoint': _SE + ['free_blocks_disjoint'] + _CLR,
     'every_listed_block_is_free': _SE + ['every_listed_block_is_free', 'buckets_are_distinct_lists',
                                          'no_duplicates_in_bucket', 'no_empty_bucket', '*ext'],
     'no_duplicates_in_bucket': _SE + ['no_duplicates_in_bucket', 'every_listed_block_is_free',
@@ -165,27 +171,55 @@ def build(w):
         # that the proof works from the pre-state invariant and the concrete
         # updates only (assuming the callee's quantified postcondition in the
         # middle sends the solver into matching loops)
-        inline=['heap.Heap._absorb'],
-        # proof outline: which (quantified) hypotheses each goal is proved from
+        # _absorb is used through its contract; at each call the quantified hypotheses collected so far are dropped
+        # except the two about the block being freed: _absorb's postcondition re-establishes the whole invariant
+        forget={'heap.Heap._absorb': ['block_disjoint_from_free', 'block_disjoint_from_allocated',
+                                     'prev_extent_clear_of_free', 'prev_extent_clear_of_allocated']},
         uses=FREE_USES,
         lemmas=[
-            # the neighbour found through the stop index is a registered, listed free block
+            # the neighbour found through the stop index is a registered, listed, well-placed free block, and its
+            # extent is clear of every other free block and of every allocated block (proved from the invariant as it
+            # holds here, carried across the calls of _absorb, which forget it)
             {'before': 'start, _ = self._absorb(prev_block)', 'prove': {
                 'prev_is_free_and_listed':
                     'prev_block[0] == arena and prev_block[2] == start and has(%s, (arena, prev_block[1])) and '
                     'get(%s, (arena, prev_block[1])) == prev_block and prev_block[1] < start and '
+                    '0 <= prev_block[1] and prev_block[1] %% 8 == 0 and prev_block[2] <= arena.size and '
+                    'not has(%s, (arena, prev_block[1])) and '
                     'has(%s, prev_block[2] - prev_block[1]) and '
                     'count(get(%s, prev_block[2] - prev_block[1]), prev_block) >= 1 and '
                     'allocated(get(%s, prev_block[2] - prev_block[1])) and '
-                    'count(%s, prev_block[2] - prev_block[1]) >= 1' % (S, S, L, L, L, LN)}},
+                    'count(%s, prev_block[2] - prev_block[1]) >= 1' % (S, S, E, L, L, L, LN),
+                'prev_extent_clear_of_free': Forall(AX,
+                    'implies(has(%s, (a, x)) and a == arena and x != prev_block[1], '
+                    '%s[2] <= prev_block[1] or prev_block[2] <= x)' % (S, SB)),
+                'prev_extent_clear_of_allocated': Forall(AXY,
+                    'implies(has(%s, (a, x, y)) and a == arena, y <= prev_block[1] or prev_block[2] <= x)' % A)}},
             {'before': '_, stop = self._absorb(next_block)', 'prove': {
                 'next_is_free_and_listed':
                     'next_block[0] == arena and next_block[1] == stop and has(%s, (arena, next_block[2])) and '
                     'get(%s, (arena, next_block[2])) == next_block and stop < next_block[2] and '
+                    'next_block[2] <= arena.size and next_block[2] %% 8 == 0 and '
+                    'not has(%s, (arena, next_block[2])) and '
                     'has(%s, next_block[2] - next_block[1]) and '
                     'count(get(%s, next_block[2] - next_block[1]), next_block) >= 1 and '
                     'allocated(get(%s, next_block[2] - next_block[1])) and '
-                    'count(%s, next_block[2] - next_block[1]) >= 1' % (E, E, L, L, L, LN)}},
+                    'count(%s, next_block[2] - next_block[1]) >= 1' % (E, E, S, L, L, L, LN),
+                'next_extent_clear_of_free': Forall(AX,
+                    'implies(has(%s, (a, x)) and a == arena and x != next_block[1], '
+                    '%s[2] <= next_block[1] or next_block[2] <= x)' % (S, SB)),
+                'next_extent_clear_of_allocated': Forall(AXY,
+                    'implies(has(%s, (a, x, y)) and a == arena, y <= next_block[1] or next_block[2] <= x)' % A)}},
+            # after the neighbours were absorbed: the merged extent [start, stop) is clear, stated over the index as it is now
+            {'before': 'block = (arena, start, stop)', 'prove': {
+                'merged_extent_wf': '0 <= start and start < stop and stop <= arena.size and start %% 8 == 0 and stop %% 8 == 0 '
+                                    'and start <= block[1] and block[2] <= stop and allocated(arena) and arena == block[0] and '
+                                    'not has(%s, (arena, start)) and not has(%s, (arena, stop)) and '
+                                    'not has(%s, (arena, stop)) and not has(%s, (arena, start))' % (E, S, E, S),
+                'merged_extent_clear_of_free': Forall(AX,
+                    'implies(has(%s, (a, x)) and a == arena, %s[2] <= start or stop <= x)' % (S, SB)),
+                'merged_extent_clear_of_allocated': Forall(AXY,
+                    'implies(has(%s, (a, x, y)) and a == arena, y <= start or stop <= x)' % A)}},
         ],
         requires=free_req,
         modifies=[S + '.*', E + '.*', L + '.*', LN + '.*', 'list<tup[ref[Arena],int,int]>.*'],
